@@ -1,6 +1,7 @@
 package main
 
 import (
+	"golang.org/x/tools/go/ssa"
 	"fmt"
 	"go/types"
 	"strings"
@@ -223,6 +224,45 @@ func (env *Env) call(e *ECall) TV {
 		T, _ := fc.resolveType(ts.Val, env.tpkg)
 		k := P.Box(T)
 		return TV{fmt.Sprintf("(= (tagof %s) tag_%s)", x.T, k), "Bool", B}
+	case "local":
+		// local("x"): the Go variable x, even where a contract keyword (result, idx, ...) shadows its name
+		ns, ok := env.strLit(e.Args[0])
+		if !ok || env.lookup == nil {
+			return env.fail("local needs a string literal variable name")
+		}
+		if tv, ok := env.lookup(ns.Val, env.cur); ok {
+			return tv
+		}
+		return env.fail("local: unknown variable %q", ns.Val)
+	case "closureof", "freevar":
+		// closureof(f, "Outer$1"): the function value f is a closure of that anonymous function;
+		// freevar(f, "Outer$1", "name"): the value its captured variable held when the closure was made.
+		x := arg(0)
+		ks, ok := env.strLit(e.Args[1])
+		if !ok {
+			return env.fail("%s needs a string literal function key", e.Fun)
+		}
+		fn := fc.findClosureFn(ks.Val)
+		if fn == nil {
+			return env.fail("%s: no anonymous function %q in the loaded packages", e.Fun, ks.Val)
+		}
+		if e.Fun == "closureof" {
+			return TV{fmt.Sprintf("(= (%s %s) %d)", fc.cloFnFun(), x.T, cloID(fn)), "Bool", B}
+		}
+		ns, ok := e.Args[2].(*EStr)
+		if !ok {
+			return env.fail("freevar needs a string literal variable name")
+		}
+		for i, fv := range fn.FreeVars {
+			if fv.Name() == ns.Val {
+				T := fv.Type()
+				if pt, ok := T.Underlying().(*types.Pointer); ok {
+					T = pt.Elem()
+				}
+				return TV{fmt.Sprintf("(%s %s)", fc.cloFvFun(i, P.SortOf(T)), x.T), P.SortOf(T), T}
+			}
+		}
+		return env.fail("freevar: %s captures no variable %q", ks.Val, ns.Val)
 	case "unbox":
 		x := arg(0)
 		ts, ok := e.Args[1].(*EStr)
@@ -305,6 +345,65 @@ func (env *Env) call(e *ECall) TV {
 		return tv
 	}
 	return env.fail("unknown function %q", e.Fun)
+}
+
+// strLit: a string literal, possibly behind a `const` macro.
+func (env *Env) strLit(e Expr) (*EStr, bool) {
+	if s, ok := e.(*EStr); ok {
+		return s, true
+	}
+	if id, ok := e.(*EIdent); ok {
+		if c, ok := env.fc.eng.Spec.Consts[id.Name]; ok {
+			if pe, err := ParseExpr(c); err == nil {
+				if s, ok := pe.(*EStr); ok {
+					return s, true
+				}
+			}
+		}
+	}
+	return nil, false
+}
+
+func (fc *FnCtx) cloFnFun() string {
+	fc.P.Declare("clo_fn", "(declare-fun clo_fn (Int) Int)")
+	return "clo_fn"
+}
+
+func (fc *FnCtx) cloFvFun(i int, sort string) string {
+	name := fmt.Sprintf("clo_fv%d_%s", i, mangle(sort))
+	fc.P.Declare(name, fmt.Sprintf("(declare-fun %s (Int) %s)", name, sort))
+	return name
+}
+
+// cloID: a stable identifier of an anonymous function (FNV-1a of its qualified key).
+func cloID(fn *ssa.Function) int64 {
+	path := ""
+	if fn.Pkg != nil {
+		path = fn.Pkg.Pkg.Path()
+	}
+	h := uint64(14695981039346656037)
+	for _, c := range []byte(path + "::" + closureKey(fn)) {
+		h ^= uint64(c)
+		h *= 1099511628211
+	}
+	return int64(h>>2) + 1
+}
+
+// findClosureFn resolves "Outer$1" / "(*T).M$1" (optionally "pkg::" qualified) among the loaded functions.
+func (fc *FnCtx) findClosureFn(key string) *ssa.Function {
+	if fn, ok := fc.eng.Funcs[key]; ok && fn.Parent() != nil {
+		return fn
+	}
+	var found *ssa.Function
+	for k, fn := range fc.eng.Funcs {
+		if fn.Parent() != nil && strings.HasSuffix(k, "::"+key) {
+			if found != nil && found != fn {
+				return nil
+			}
+			found = fn
+		}
+	}
+	return found
 }
 
 func (fc *FnCtx) appFun(argSorts []string, res string) string {
